@@ -41,6 +41,9 @@ pub use self::num_traits::{One, Signed, ToPrimitive, Zero};
 
 broadcast use {vstd::group_vstd_default, crate::ax::axiom_ref_into_self, crate::ax::axiom_ref_into_self_obeys, crate::shim::axiom_spec_magnitude, crate::vs::val_algebra_core};
 
+// target assumption: 64-bit platform (u64 -> usize conversions cannot fail); listed in the evidence
+global size_of usize == 8;
+
 // ------------------------------------------------------------------ scale bound `B`
 /// machine-range precondition on scales of arithmetic contracts: |s| <= 2^61
 pub spec const SB: int = 0x2000_0000_0000_0000;
